@@ -108,7 +108,9 @@ class Tracer:
 
     def error(self, a, e):
         self._touch(a)
-        self._ev(a, "error", "#error", canon(e), e)
+        # (the exception object itself is not kept: its traceback would keep
+        # frames -- and suspended generators -- alive)
+        self._ev(a, "error", "#error", canon(e), None)
 
     def exit(self, a):
         self._touch(a)
